@@ -2090,6 +2090,15 @@ def _structural_recursion(r, f: Fn, what: str, node_param: str, self_call_pred, 
             if isinstance(a, ast.Name) and it is not None and any(isinstance(t, ast.Name) and t.id == a.id
                                                                  for t in ast.walk(it[1])):
                 arg = a.id
+        if it is not None and arg is None and isinstance(it[1], ast.Name) and known_instance(g, node_param, {'MappingNode'}):
+            # for pair in node.value: for child in pair: rec(child) - every component of every pair
+            inner = [l for l in enclosing_loops(c, f.node) if isinstance(l, ast.For) and isinstance(l.iter, ast.Name)
+                     and l.iter.id == it[1].id and isinstance(l.target, ast.Name) and whole_collection_loop(l)
+                     and any(isinstance(a, ast.Name) and a.id == l.target.id for a in c.args)]
+            filt = [b for b in f.cfg.guard_nodes(f.nid(c)) if any(x is it[0] for x in _ancestors_list(b.ast))]
+            if inner and not filt:
+                key_ok = val_ok = True
+                continue
         if it is None or arg is None:
             got = _children_collection(f, c, node_param)
             if got is not None:
